@@ -551,3 +551,21 @@ EXTRA["X02"] = {
          "trace_module": "DownloadsTrace", "trace_consts": dict(ReadyToAllDocs="FALSE"), "tv_timeout": 3000},
     ],
 }
+
+EXTRA["X03"] = {
+    "level": "exploration",
+    "rule": "system level: 2-3 complete nodes (endpoint, router, gossip, blobs, docs engine with live / store / RPC actors) on the "
+            "real local network share one document through a write ticket (create + share on node 1, import = import_namespace + "
+            "start_sync on the others, with or without entries already present), write and delete concurrently through the client "
+            "API under a skewed clock; the contents of every node are read through the API after every write and after the nodes "
+            "have gone quiet; a case is one history, non-trivial = every history (>= 4 writes on >= 2 nodes)",
+    "assumptions": ["timing: the driver waits until all nodes have shown equal contents for 400 ms, at most 60 s; a history that does not "
+                    "get quiet in that time is reported (EXT-VIOLATION), which on a heavily loaded machine can be a false report - the "
+                    "reason this check is an extension and not part of any property's check",
+                    "the network is the loopback interface without loss; loss, duplication and cut sessions are covered by C04's own drive"],
+    "models": [],
+    "drives": [
+        {"name": "nodes", "cmd": "nodes", "args": {"n": {"quick": 12, "thorough": 400}},
+         "trace_module": "NodesTrace", "trace_consts": dict(ENTRY), "tv_timeout": 3000, "timeout": 7200},
+    ],
+}
